@@ -11,7 +11,7 @@ use crate::world::World;
 
 pub struct C12;
 
-const WORLD_DIMS: &[&str] = &["rand", "heap_pad", "env_pad", "stack", "malloc_tun"];
+const WORLD_DIMS: &[&str] = &["rand", "heap_pad", "env_pad", "stack", "malloc_tun", "malloc_mode"];
 
 impl Property for C12 {
     fn id(&self) -> &'static str {
